@@ -263,26 +263,8 @@ theorem mtp_total (n : Node) (anc : List Node) : ∃ m, getMedianTimePast (n :: 
 theorem merkle_mutation_iff (h : Bytes → Bytes) (l : List Bytes) (r : Bytes) (m : Bool)
     (hc : calcMerkle h l = some (r, m)) :
     (m = true ↔ ∃ lv ∈ Spec.Merkle.levels h l.length l, ∃ j, 2 * j + 1 < lv.length ∧ lv[2 * j]? = lv[2 * j + 1]?) ∧
-    (Spec.Merkle.root h l.length l).head? = some r := by
-  unfold calcMerkle at hc
-  rw [Proofs.C05.calcMerkleLoop_eq] at hc
-  simp only [Bool.false_or] at hc
-  split at hc
-  · rename_i r' tl m' heq
-    simp only [Option.some.injEq, Prod.mk.injEq] at hc
-    obtain ⟨hr, hm⟩ := hc
-    simp only [Prod.mk.injEq] at heq
-    obtain ⟨h1, h2⟩ := heq
-    subst hr hm
-    constructor
-    · rw [← h2, List.any_eq_true]
-      constructor
-      · rintro ⟨lv, hlv, hp⟩
-        exact ⟨lv, hlv, (Proofs.C05.hasEqualPair_iff lv).mp hp⟩
-      · rintro ⟨lv, hlv, hp⟩
-        exact ⟨lv, hlv, (Proofs.C05.hasEqualPair_iff lv).mpr hp⟩
-    · rw [h1]; rfl
-  · simp at hc
+    (Spec.Merkle.root h l.length l).head? = some r :=
+  Proofs.C05.calcMerkle_spec h l r m hc
 
 /-- non-vacuity / CVE-2012-2459 on the model: [a,b,c] and [a,b,c,c] have the same root, only the second is flagged. -/
 example : (calcMerkle (fun x => x.take 1) [[1], [2], [3]]).map (·.2) = some false ∧
@@ -459,5 +441,144 @@ theorem commitment_is_last_matching (outs : List Bytes) (pk : Bytes) (h : findCo
 /-- non-vacuity of `commitment_is_last_matching` -/
 example : findCommitment ([[1], 0x6a :: 0x24 :: 0xaa :: 0x21 :: 0xa9 :: 0xed :: List.replicate 32 7, [2]] : List Bytes).reverse
     = some (0x6a :: 0x24 :: 0xaa :: 0x21 :: 0xa9 :: 0xed :: List.replicate 32 7) := by decide
+
+/-- **CheckBlock never changes the chain.** On every path of `Chain.CheckBlock` — accepted, refused by
+    PreCheckBlock, refused by PostCheckBlock — the chain state (block tree, `BlockIndex`, tip, unspent set) that
+    comes out is the one that went in. -/
+theorem checkBlock_chain_unchanged {U : Type} (p : Params) (c : Consensus) (h : Bytes → Bytes) (now : Int)
+    (cs cs' : ChainSt U) (bl bl' : BlockObj) (r : CheckRes)
+    (hr : checkBlockM p c h now cs bl = some (cs', bl', r)) : cs' = cs := by
+  unfold checkBlockM at hr
+  split at hr
+  · simp at hr
+  · dsimp only at hr
+    split at hr
+    · simp only [Option.some.injEq, Prod.mk.injEq] at hr; exact hr.1.symm
+    · split at hr
+      · simp at hr
+      · simp only [Option.some.injEq, Prod.mk.injEq] at hr; exact hr.1.symm
+
+/-- **refused_unchanged** — "Otherwise it is refused and nothing changes". When `Chain.CheckBlock` refuses a block
+    (any result other than `ok`), the chain state — block tree, `BlockIndex`, tip, unspent set — is returned
+    unchanged, and the block object differs from the one handed in at most in the four fields the function
+    assigns on its way (`Height`, `MedianPastTime`, `Txs`, `VerifyFlags`): everything derived from `Raw`, the hash
+    and the trusted mark are as before. -/
+theorem refused_unchanged {U : Type} (p : Params) (c : Consensus) (h : Bytes → Bytes) (now : Int)
+    (cs cs' : ChainSt U) (bl bl' : BlockObj) (r : CheckRes)
+    (hr : checkBlockM p c h now cs bl = some (cs', bl', r)) (_hne : r.code ≠ "ok") :
+    cs' = cs ∧
+    { bl' with height := bl.height, mtp := bl.mtp, txs := bl.txs, verifyFlags := bl.verifyFlags } = bl := by
+  refine ⟨checkBlock_chain_unchanged p c h now cs cs' bl bl' r hr, ?_⟩
+  unfold checkBlockM at hr
+  split at hr
+  · simp at hr
+  · dsimp only at hr
+    split at hr
+    · simp only [Option.some.injEq, Prod.mk.injEq] at hr
+      obtain ⟨_, rfl, _⟩ := hr
+      simp [afterPre]
+    · split at hr
+      · simp at hr
+      · simp only [Option.some.injEq, Prod.mk.injEq] at hr
+        obtain ⟨_, rfl, _⟩ := hr
+        simp [afterPost, afterPre]
+
+/-- non-vacuity of `refused_unchanged`: a block whose parent is unknown is refused (`bad-prevblk`, maybelater) on
+    a one-node chain. -/
+example : (checkBlockM (U := Unit)
+    { maxPowBits := 0x207fffff, maxPowValue := setCompact 0x207fffff, testnet := false, testnet4 := false }
+    { bip34Height := 1, bip65Height := 1, bip66Height := 1, enforceCSV := 0, enforceSegwit := 0, enforceTaproot := 0 }
+    (fun x => x) 5000
+    { nodes := #[({ height := 0, ts := 900, bits := 0x207fffff }, -1)], index := [(7, 0)], last := 0, unspent := () }
+    { rawLen := 285, ver := 4, hash := 12345, hashKey := 9, parentKey := 8, bits := 0x207fffff, time := 1000, merkleRoot := [],
+      trusted := false, build := [], buildOk := true, height := 0, mtp := 0, txs := none, verifyFlags := 0 }).map (·.2.2)
+      = some { dos := false, maybelater := true, code := "bad-prevblk" } := by
+  decide +kernel
+
+/-- **Accepted ⇒ both halves passed, on inputs read from the chain state.** If `Chain.CheckBlock` answers `ok`,
+    then PreCheckBlock passed on the inputs it looked up itself in the chain state (`preInOf`: known hash, parent
+    and ancestors, tip) and PostCheckBlock passed on the block as PreCheckBlock left it — so `precheck_sound` and
+    `postcheck_sound` apply to exactly these inputs — the result carries neither `dos` nor `maybelater`, and the
+    block object holds height = parent height + 1, the parent's median-time-past and the flags of GetBlockFlags. -/
+theorem checkBlock_accept {U : Type} (p : Params) (c : Consensus) (h : Bytes → Bytes) (now : Int)
+    (cs cs' : ChainSt U) (bl bl' : BlockObj) (r : CheckRes)
+    (hr : checkBlockM p c h now cs bl = some (cs', bl', r)) (hok : r.code = "ok") :
+    ∃ o f, preCheckBlock p c (preInOf cs bl now) = some o ∧ o.err = .ok ∧
+      postCheckBlock h c (postInOf (afterPre bl o)) = some (.ok, f) ∧
+      r.dos = false ∧ r.maybelater = false ∧
+      bl'.height = o.height ∧ bl'.mtp = o.mtp ∧ bl'.verifyFlags = f := by
+  unfold checkBlockM at hr
+  split at hr
+  · simp at hr
+  · rename_i o ho
+    dsimp only at hr
+    split at hr
+    · rename_i hne
+      simp only [Option.some.injEq, Prod.mk.injEq] at hr
+      obtain ⟨_, _, rfl⟩ := hr
+      exact absurd (Proofs.C05.preErr_code_ok hok) hne
+    · rename_i hne
+      have hoe : o.err = .ok := Classical.byContradiction hne
+      split at hr
+      · simp at hr
+      · rename_i e f hpost
+        simp only [Option.some.injEq, Prod.mk.injEq] at hr
+        obtain ⟨_, rfl, rfl⟩ := hr
+        have he : e = .ok := Proofs.C05.postErr_code_ok hok
+        subst he
+        have hs := precheck_sound p c _ o ho hoe
+        obtain ⟨_, _, _, _, _, _, _, _, _, _, _, _, _, _, _, _, _, hml⟩ := hs
+        refine ⟨o, f, ho, hoe, hpost, by simp, hml, ?_, ?_, ?_⟩
+        · simp [afterPost, afterPre, hoe, PreErr.setsHeight]
+        · simp [afterPost, afterPre, hoe, PreErr.setsMtp]
+        · simp [afterPost, PostErr.setsFlags]
+
+/-- **Version gating, pointwise, on the three networks** (activation heights regenerated from NewChainExt, minimum
+    versions from PreCheckBlock): a header version — read as a SIGNED 32-bit number — is permitted at a height iff
+    it is at least 2 from the BIP34 height, 3 from the BIP66 height and 4 from the BIP65 height.
+    Mainnet 227931 / 363725 / 388381, testnet3 21111 / 330776 / 581885, testnet4 from block 1. -/
+theorem version_gating_pointwise (ver height : Nat) :
+    (versionRejected mainnetConsensus ver height = false ↔
+      signedVersion ver ≥ (if height ≥ 388381 then 4 else if height ≥ 363725 then 3 else if height ≥ 227931 then 2 else -2^31)) ∧
+    (versionRejected testnet3Consensus ver height = false ↔
+      signedVersion ver ≥ (if height ≥ 581885 then 4 else if height ≥ 330776 then 3 else if height ≥ 21111 then 2 else -2^31)) ∧
+    (versionRejected testnet4Consensus ver height = false ↔
+      signedVersion ver ≥ (if height ≥ 1 then 4 else -2^31)) := by
+  have hlo := Proofs.C05.signedVersion_ge ver
+  have m1 : mainnetConsensus.bip34Height = 227931 := by decide
+  have m2 : mainnetConsensus.bip66Height = 363725 := by decide
+  have m3 : mainnetConsensus.bip65Height = 388381 := by decide
+  have t1 : testnet3Consensus.bip34Height = 21111 := by decide
+  have t2 : testnet3Consensus.bip66Height = 330776 := by decide
+  have t3 : testnet3Consensus.bip65Height = 581885 := by decide
+  have f1 : testnet4Consensus.bip34Height = 1 := by decide
+  have f2 : testnet4Consensus.bip66Height = 1 := by decide
+  have f3 : testnet4Consensus.bip65Height = 1 := by decide
+  rw [Proofs.C05.versionRejected_false_iff, Proofs.C05.versionRejected_false_iff, Proofs.C05.versionRejected_false_iff,
+    m1, m2, m3, t1, t2, t3, f1, f2, f3]
+  generalize signedVersion ver = v at hlo ⊢
+  refine ⟨?_, ?_, ?_⟩
+  · split
+    · omega
+    · split
+      · omega
+      · split <;> omega
+  · split
+    · omega
+    · split
+      · omega
+      · split <;> omega
+  · split <;> omega
+
+/-- the boundary cases of the property's quantifier ("versions 1..4 at activation heights"), mainnet: each version
+    is still permitted one block before the height that retires it and refused at that height; version 4 and above
+    always pass; a version with the top bit set is negative and refused from the BIP34 height on. -/
+theorem version_gating_mainnet_edges :
+    versionRejected mainnetConsensus 1 227930 = false ∧ versionRejected mainnetConsensus 1 227931 = true ∧
+    versionRejected mainnetConsensus 2 363724 = false ∧ versionRejected mainnetConsensus 2 363725 = true ∧
+    versionRejected mainnetConsensus 3 388380 = false ∧ versionRejected mainnetConsensus 3 388381 = true ∧
+    versionRejected mainnetConsensus 4 388381 = false ∧ versionRejected mainnetConsensus 0x20000000 900000 = false ∧
+    versionRejected mainnetConsensus 0x80000004 227930 = false ∧ versionRejected mainnetConsensus 0x80000004 227931 = true := by
+  decide
 
 end GocoinV.Props.C05
